@@ -1,7 +1,7 @@
 #!/usr/bin/env python3
 import json, glob, os
 rows=[]
-for d in sorted(glob.glob('/verif/seeded/*/meta.json')):
+for d in sorted(glob.glob("/verif/seeded/*/meta.json")):
     m=json.load(open(d))
     notes=m.get("needs_to_manifest","").strip().splitlines()
     first=next((l.strip("# -*").strip() for l in notes if len(l.strip())>25), "")
